@@ -321,6 +321,10 @@ def runOp : P String := do
   | "HPHI" =>
     let x ← pFloat
     pure ("OK " ++ toHex (HP.toFloat (HP.Phi 128 (HP.ofFloat x))))
+  | "HPHI2" =>
+    -- both evaluators of Φ on big floats (asymptotic branch where it applies / convergent series), exact outputs
+    let x ← pFloat
+    pure ("OK " ++ showBF (HP.Phi 128 (HP.ofFloat x)) ++ " " ++ showBF (HP.PhiSeries 128 (HP.ofFloat x)))
   | "LEAGUE" | "LEAGUEX" =>
     -- a whole league history on the model's league machine (ratings fed back by player number)
     let beta ← pFloat
